@@ -72,6 +72,12 @@ CHECKS = {
         note="Trusted: Lean kernel; harness; SQLite enforcing the declared UNIQUE/PK/FK constraints; PostgreSQL paths not executable here. The model follows the implementation where an existing collection name is returned whatever type is asked for (registerCollection returns False).",
         design="DESIGN.md §5 C02",
     ),
+    "C10": dict(
+        technique="Lean 4 proof (exact state equations for purge over the registry+datastore model, corollaries of the C02 invariants) + history correspondence on a real Butler with existence probes of every dataset + set oracle",
+        text="purge_exact (purge is always accepted and leaves exactly the old tables / datastore records / artifacts minus the targets), purge_members (membership of every collection = old minus targets), purge_others_untouched, purge_targets_gone, orphan_refused (the registry refuses to forget a dataset a datastore still holds, changing nothing), purge_inv, exists_flags_consistent, extDelete_flags are proved in Lean 4. The model is compared with a real Butler on seeded histories mixing puts, tagging, certification, chaining, the three prune modes, registry.removeDatasets, removeRuns and external deletion of artifacts; after every step exists(full_check) / _exists_many / stored / query membership / directory listing of every dataset ever created are compared with the model and with the harness's own sets.",
+        note="Trusted: Lean kernel; harness; SQLite FK enforcement (dataset_location -> dataset); POSIX file existence. Shared artifacts (C09) and concurrency (C20) are out of this property's model.",
+        design="DESIGN.md §5 C10",
+    ),
 }
 
 NOT_YET = {}
